@@ -125,13 +125,25 @@ def run(ctx):
     recs = [lk.run_case(c, rnd, 60 if q else 800) for c in cs]
     for r in recs:
         ctx.case(key=(r["fam"], r["cens"], r["pos"], r["shp"], r["src"], r["yb"], r["pb"]), n=r["n_points"])
-    ok, idx, r2 = cases.validate_records("LikelihoodTrace", CFG_T, [{k: v for k, v in r.items() if k != "worst"} for r in recs], tmp, "conf",
+    ok, idx, r2 = cases.validate_records("LikelihoodTrace", CFG_T, [{k: v for k, v in r.items() if k not in ("worst", "derivative_notes")} for r in recs], tmp, "conf",
                                          env={"EXPECT_COUNT": str(len(cs))})
     ctx.traces += len(recs)
     ctx.states += r2.distinct
     ctx.transitions += r2.generated
     ctx.log(f"{len(recs)} cases x {recs[0]['n_points']} points through the real distribution families -> {'all conform' if ok else 'MISMATCH'}")
     ctx.sample({k: v for k, v in recs[10].items()})
+    # conformance notes beyond the property: derivatives (D(Term, "x") of Likelihood.tla)
+    dn = {}
+    for r in recs:
+        for k, v in r["derivative_notes"].items():
+            if isinstance(v, int):
+                dn[k] = dn.get(k, 0) + v
+            elif v is not None and k not in dn:
+                dn[k] = {"fam": r["fam"], **v}
+    ctx.extra["derivative_notes"] = dn
+    ctx.log(f"notes (not part of the verdict): D(Term, x) vs central difference {dn.get('d_self_ok', 0)} ok / {dn.get('d_self_bad', 0)} off; "
+            f"derivatives handed out by the Gaussian families vs D(Term, x): {dn.get('jac_ok', 0)} ok / {dn.get('jac_bad', 0)} off"
+            + (f" e.g. {dn['jac_example']}" if dn.get("jac_example") else ""))
     if not ok:
         for r in recs:
             if not (r["all_match"] and r["all_finite"] and r["layouts_match"] and r["routes_agree"]):
@@ -143,7 +155,7 @@ def run(ctx):
     for b in bad[:5]:
         ctx.violation({"check": "model_level", "kind": b[0], "variable": b[1]}, f"model-level likelihood variable differs from the term: {b}", replay=list(b))
     import copy
-    g = {k: v for k, v in recs[0].items() if k != "worst"}
+    g = {k: v for k, v in recs[0].items() if k not in ("worst", "derivative_notes")}
     b = copy.deepcopy(g)
     b["all_match"] = False
     ok, idx, _ = cases.validate_records("LikelihoodTrace", CFG_T.replace("INVARIANT Covered\n", ""), [g, b], tmp, "selftest", env={"EXPECT_COUNT": "0"})
